@@ -165,7 +165,11 @@ class NaiveBayes(BayesianNetwork):
         for variable in [variables] if isinstance(variables, str) else variables:
             if variable != self.dependent:
                 independencies.add_assertions(
-                    [variable, list(set(self.features) - set(variable)), self.dependent]
+                    [
+                        [variable],
+                        list(set(self.features) - {variable}),
+                        [self.dependent],
+                    ]
                 )
         return independencies
 
